@@ -1,3 +1,13 @@
 #!/bin/sh
+# Builds the engines offline from files on disk. Idempotent.
 set -e
 cd /verif
+export CARGO_NET_OFFLINE=true
+(cd engine/blots-facts && cargo +nightly build --release --offline)
+(cd engine/grammar-facts && cargo build --release --offline)
+# warm the fact cache for the current tree (dependencies are type-checked once into .cache/target-dev)
+python3 -c "
+import sys; sys.path.insert(0, '/verif')
+from lib import facts
+print(facts.get_facts(need=('dev',)))
+"
